@@ -264,14 +264,17 @@ theorem validFilter_iff (f : Filter) : validFilter f = true ↔ FilterOk f := by
   cases ids <;> cases authors <;> cases kinds <;> cases tags <;> cases since <;> cases until_ <;> cases limit <;>
     simp [List.all_eq_true, validID_iff, validPubkey_iff, validKind_iff, validTagCond_iff, and_assoc]
 
+/-- the dispatcher `ValidClientMsg` and the list-carrying `Valid` methods are the ones the model follows -/
+theorem valid_dispatch_pinned : validDispatchActual = validDispatchExpected := by rfl
+
 /-- **C11, admission = the constraints.**  `ValidClientMsg` judges a parsed client message valid exactly when it
     meets the NIP-01 constraints: no well-formed message is turned away, and every component behind the gate may
     rely on them. -/
 theorem validClientMsg_iff (m : ClientMsg) : validClientMsg m = true ↔ MsgOk m := by
   cases m with
-  | event e => exact validEvent_iff e
-  | auth e => exact validEvent_iff e
-  | close s => simp [validClientMsg, MsgOk]
+  | event e => simpa [validClientMsg, Gen.clientEventValid, MsgOk] using validEvent_iff e
+  | auth e => simpa [validClientMsg, Gen.clientAuthValid, MsgOk] using validEvent_iff e
+  | close s => simp [validClientMsg, MsgOk, Gen.clientCloseValid]
   | req s fs =>
     simp only [validClientMsg, MsgOk, Gen.reqNoFilters, Bool.and_eq_true, Bool.not_eq_true', List.all_eq_true,
       validFilter_iff]
